@@ -104,6 +104,7 @@ type ContractSet struct {
 	ByFunc       map[string]*Contract // key: pkgpath + "." + Func
 	Axioms       []*Clause
 	Stable       []string // "T.f"
+	ImmutableImpl [][]string // pkgDir, interface name, files whose functions may build the implementations
 	JSPreserved  []string // "T.f"
 	Extern       map[string]bool
 	All          []*Contract
@@ -273,6 +274,16 @@ func parseContractFile(cs *ContractSet, path, pkgDir string) {
 				}
 				cs.Extern[f] = true
 				cs.Scan = append(cs.Scan, fmt.Sprintf("assumed: %s does not modify modelled state; its result is unconstrained (%s:%d)", f, filepath.Base(path), ln+1))
+			}
+		case strings.HasPrefix(l, "immutable-impl "):
+			// immutable-impl <Interface> built-in <file>...: no function outside the listed files stores to a
+			// field of a struct type implementing the interface (or into a map/slice held in such a field),
+			// except through an object it has just allocated
+			f := strings.Fields(strings.TrimPrefix(l, "immutable-impl "))
+			if len(f) >= 3 && f[1] == "built-in" {
+				cs.ImmutableImpl = append(cs.ImmutableImpl, append([]string{pkgDir, f[0]}, f[2:]...))
+			} else {
+				cs.Errors = append(cs.Errors, fmt.Sprintf("%s:%d: bad immutable-impl directive", path, ln+1))
 			}
 		case strings.HasPrefix(l, "stable "):
 			for _, f := range strings.Fields(strings.TrimPrefix(l, "stable ")) {
